@@ -37,11 +37,30 @@ func run(t *testing.T, prop string, x any, cfg simrt.Config) *eng.Outcome {
 		return o
 	}
 	o.V = oracle(c)
+	if o.V != nil && hasOptPost(sc) {
+		// second reading: the generic post option on a batch node is not used
+		alt := sc.clone()
+		alt.OptPostIgnored = true
+		c2 := &octx{prop: prop, sc: alt, mod: runModel(alt), obs: obs, res: res, out: o}
+		if oracle(c2) == nil {
+			o.V = nil
+			c = c2
+		}
+	}
 	if o.V == nil {
 		o.V = c.twins(t, cfg)
 	}
 	c.account()
 	return o
+}
+
+func hasOptPost(sc *Scn) bool {
+	for _, n := range sc.Nodes {
+		if n.OptPost {
+			return true
+		}
+	}
+	return false
 }
 
 func TestSim(t *testing.T) {
